@@ -669,6 +669,10 @@ def run(ctx):
     # sizes is a violation of C04 as much as of C08.  The panic obligations of C08 that lie in the Merkle module are obligations here.
     if ctx.extra.get("structure_rules_only"):
         return
+    # "the path and index issued for position i": the server issues INDX = position in Responder.requests and PATH = get_paths(that position), so
+    # position i of the queue must be leaf i of the tree - the queue changes only together with the tree (server_model.queue_lockstep)
+    import server_model as sm
+    sm.queue_lockstep(ctx, W, "issued-position")
     import importlib
     from framework import Ctx
     c8 = importlib.import_module("rules.C08")
